@@ -60,7 +60,7 @@ static int cmd_worker(int argc, char **argv) {
 	printf("{\"type\":\"hello\",\"config\":\"%s\",\"variant\":\"%s\",\"dataset_items\":%llu,\"property\":\"%s\"}\n", exec::config_name(), exec::variant_name(),
 	       (unsigned long long)exec::dataset_items(), prop.c_str());
 	fflush(stdout);
-	if (prop == "C11") return gen::c11_worker(seed, from, to, step, budget, samples, tier);
+	if (prop == "C11") return gen::c11_worker(seed, from, to, step, budget, samples, tier, mode);
 	if (mode == "fullshipped") exec::enable_shipped_full_mem_model();
 	gen::Context gc; gc.property = prop; gc.tier = tier; gc.mode = mode;
 	gen::init_context(gc);
